@@ -231,10 +231,13 @@ impl Monitor for C19 {
 		}
 		for _ in 0..ctx.tier.pick(400, 20000) {
 			let (w, name) = WIDTHS[rng.below(3)];
-			let nul_at = rng.below(w + 1);
+			// the completely filled field (no NUL at all) is the most interesting single position
+			let nul_at = if rng.chance(1, 6) { w } else { rng.below(w + 1) };
+			let kat_full = rng.chance(1, 2);
 			let mut f = vec![];
 			while f.len() < nul_at {
-				let kat = nul_at % 3 == 0;
+				// katakana-only text for a third of the positions and for half of the completely filled fields
+				let kat = nul_at % 3 == 0 || (nul_at == w && kat_full);
 				if kat && f.len() < nul_at {
 					f.push(0xA1 + rng.below(0x3F) as u8);
 					continue;
